@@ -183,6 +183,14 @@ func (p *NamePacket) UnmarshalPacketBody(buf *Buffer) (err error) {
 		return buf.Err
 	}
 
+	// Each name entry occupies at least 12 bytes (two length-prefixed strings and the attribute flags),
+	// so a count that the remaining data cannot satisfy is malformed.
+	// Do not let it drive the allocation below.
+	if count < 0 || count > buf.Len()/12 {
+		buf.Err = ErrShortPacket
+		return buf.Err
+	}
+
 	*p = NamePacket{
 		Entries: make([]*NameEntry, 0, count),
 	}
